@@ -60,6 +60,8 @@ def run(idx, rep, tier):
     # a bare @v component votes on existence; #name resolves to the first column of that name in the headers of now
     c03.r7(idx, rep, "R8")
     c06.header_index_sequences(idx, rep, "R8")
+    c06.header_value_sequence(idx, rep, "R8")
+    c06.reset_table(idx, rep, "R8")
     # a handled error ends the run only when the policy (or the csvpath's validation-mode) says stop: every later matching line is lost otherwise
     c05.r2(idx, K.as_rule(rep, "R7", keep=lambda k: "do_i_" in k))
     rep.stats["exhaustive"] = True
